@@ -36,10 +36,64 @@ class Ser:
     """Order-preserving canonical text of a statement subtree: assertions dropped, once-initialised
     locals replaced by their initialiser, `if(enable_checking)` blocks dropped."""
 
-    def __init__(self, fn):
+    PURE = {"get_left", "get_right", "get_parent", "predecessor", "successor", "h", "isRed", "isBlack", "get_root",
+            "lower", "upper", "operator()", "decay", "get"}
+
+    def __init__(self, fn, sound=False):
+        """sound=False: every once-initialised local is replaced by its initialiser (a stable *name* for the
+        object, used when matching the two halves of a link pair). sound=True: a local is expanded only where
+        it provably still equals its initialiser (used when comparing mirrored code for equality)."""
         self.fn = fn
+        self.sound = sound
         self.inits = RA.local_inits(fn)
         self.once = {d for d in self.inits if not RA._reassigned(fn, d)}
+        # elements with side effects (stores, and calls that are not pure navigation)
+        self.effects = []
+        self.local_store = {}     # effect node id -> decl id of the local scalar it stores to
+        for n in fn.events():
+            if (n.kind in ("BinaryOperator", "CompoundAssignOperator") and n.op.endswith("=") and n.op not in ("==", "!=", "<=", ">=")) \
+                    or (n.kind == "UnaryOperator" and n.op in ("++", "--")):
+                self.effects.append(n.id)
+                l = n.children[0].strip()
+                if l.kind == "DeclRefExpr" and l.get("local"):
+                    self.local_store[n.id] = l.d["d"]
+            elif n.is_call() and not (n.callee and n.callee["n"] in self.PURE) and n.kind != "CXXConstructExpr":
+                self.effects.append(n.id)
+        self.declpos = {}
+        for n in fn.events():
+            if n.kind == "DeclStmt":
+                for d in n.get("decls", []):
+                    self.declpos[d["d"]] = n.id
+        self._clean = {}
+
+    def clean_use(self, did, use):
+        """The local still equals a re-evaluation of its initialiser at `use`: no store and no impure call
+        can execute between its declaration and the use."""
+        key = (did, use.id)
+        if key in self._clean:
+            return self._clean[key]
+        D = self.declpos.get(did)
+        pos = self.fn.positions()
+        # the CFG element that contains the use: walk up to an element
+        u = use
+        hops = 0
+        while u is not None and u.id not in pos and hops < 50:
+            u = self.fn.parent(u)
+            hops += 1
+        ok = False
+        if D is not None and u is not None:
+            ok = True
+            mentioned = {x.d["d"] for x in self.inits[did].walk() if x.kind == "DeclRefExpr"} if did in self.inits else set()
+            for e in self.effects:
+                if e == D or e == u.id:
+                    continue
+                if e in self.local_store and self.local_store[e] not in mentioned:
+                    continue      # a store to an unrelated local scalar cannot change the initialiser's value
+                if self.fn.reaches(D, e) and self.fn.reaches(e, u.id):
+                    ok = False
+                    break
+        self._clean[key] = ok
+        return ok
 
     def expr(self, n, depth=0):
         env = {}
@@ -50,7 +104,8 @@ class Ser:
         if depth > 40:
             return "?"
         k = n.kind
-        if k == "DeclRefExpr" and n.get("local") and n.d["d"] in self.once and n.d["d"] in self.inits:
+        if k == "DeclRefExpr" and n.get("local") and n.d["d"] in self.once and n.d["d"] in self.inits \
+                and not getattr(self, "never", False) and (not self.sound or self.clean_use(n.d["d"], n)):
             return self._e(self.inits[n.d["d"]], depth + 1)
         if k == "BinaryOperator" or k == "CompoundAssignOperator":
             return "(%s %s %s)" % (n.op, self._e(n.children[0], depth + 1), self._e(n.children[1], depth + 1))
@@ -94,7 +149,7 @@ class Ser:
         if k == "DeclStmt":
             out = []
             for d in n.get("decls", []):
-                if d["d"] in self.once and "init" in d:
+                if not self.sound and d["d"] in self.once and "init" in d:
                     continue
                 out.append("decl %s%s;" % (d["n"], (" = " + self._e(self.fn.node(d["init"]))) if "init" in d else ""))
             return " ".join(out)
@@ -111,7 +166,7 @@ class Ser:
 def check_mirror_if(ctx, rule, fn, pairs, label, only_left_tests=True):
     """Find top-level direction tests `if(get_left(X) == Y) A else B` (B not an if) and else-if chains whose
     conditions mirror each other; compare the arms under the mirror map."""
-    ser = Ser(fn)
+    ser = Ser(fn, sound=True)
     covered = set()
     n_pairs = 0
     body = fn.node(fn.d["body"])
@@ -163,8 +218,16 @@ def check_mirror_if(ctx, rule, fn, pairs, label, only_left_tests=True):
 def effect_set(fn):
     """Set of (guards, effect) for straight-line-with-guards functions: writes and calls with the non-assert
     branch facts that dominate them; locals copy-propagated."""
-    ser = Ser(fn)
+    ser = Ser(fn, sound=True)
+    ser.never = True
     out = set()
+    first_store = [e for e in ser.effects if e not in ser.local_store]
+    for n in fn.events():
+        if n.kind == "DeclStmt":
+            for d in n.get("decls", []):
+                if "init" in d:
+                    before_any_store = not any(fn.reaches(e, n.id) for e in first_store)
+                    out.add(((), "D %s := %s [evaluated before any store: %s]" % (d["n"], ser.expr(fn.node(d["init"])), before_any_store)))
     for n in fn.events():
         eff = None
         hw = None
@@ -650,7 +713,7 @@ def check_C07(ctx, unit, thorough=False):
                  "walks up through get_parent and stops only when aggregate() reports 'unchanged': %s" % (brk and cond_ok and up), f)
     ag = [f for f in unit.functions if f.owner_cls == IT + "::aggregator" and f.name == "aggregate"]
     for f in ag[:1]:
-        sr = Ser(f)
+        sr = Ser(f, sound=True)
         body = f.node(f.d["body"])
         ifs2 = [n for n in body.walk() if n.kind == "IfStmt" and "subtree_max" in sr.expr(n.child("cond")) and "new_max" in sr.stmt(n.child("then"))]
         okm = len(ifs2) == 2 and mirror(sr.stmt(ifs2[0]), [("get_left", "get_right")]) == sr.stmt(ifs2[1])
@@ -695,7 +758,7 @@ def check_C08(ctx, unit):
         if need not in fns:
             raise AnalysisBroken("anchor vanished: %s::%s" % (PH, need))
     f = fns["_merge"][0]
-    sr = Ser(f)
+    sr = Ser(f, sound=True)
     body = f.node(f.d["body"])
     top_if = [n for n in body.children if n.kind == "IfStmt" and not is_assert_stmt(n)]
     ok, why = False, "no comparator case split"
@@ -771,6 +834,10 @@ def check_C08(ctx, unit):
                 have.add((hw[0], sr.expr(hw[1])))
         ok = need <= have
     ctx.inst("H.collapse-detach", PH + "::_collapse", ok, f.loc, "both pair members detached before _merge: %s" % ok, f)
+    from .rules_link import check_read_after_clear
+    ctx.rule("H.read-after-clear", "no hook link is read right after the same link of the same element was set to null "
+             "(a link must be saved before it is cleared)", 3)
+    check_read_after_clear(ctx, "H.read-after-clear", [x for name in ("_collapse", "pop", "remove", "_merge") for x in fns[name]])
     from .rules_parse import check_loop_progress
     check_loop_progress(ctx, "R.heap-loops", f, lambda n: n.kind == "BinaryOperator" and n.op == "=" and
                         _ids(canon(n.children[0])) in ("element", "paired"))
